@@ -179,10 +179,15 @@ type vf29Case struct {
 	Variant string `json:"variant"`
 	Layers  int    `json:"sign_layers"`
 	Stage   int    `json:"put_message_with_defect"`
+	// Put only.  Split: shape of the split header of the init message ("" = none).  Env: fault of
+	// the node's environment that is present while the DEFECTIVE request is handled (the
+	// defect-free twin runs on the healthy world: it only shows that the request is servable).
+	Split string `json:"put_split_header,omitempty"`
+	Env   string `json:"env_fault,omitempty"`
 }
 
 func (c vf29Case) sig() string {
-	return fmt.Sprintf("%s|%s|%s|%s|ttl%d|%s|%s|%s|l%d|m%d", c.RPC, c.Defect, c.Sender, c.Scheme, min(c.TTL, 3), c.Version, c.Token, c.Variant, c.Layers, min(c.Stage, 2))
+	return fmt.Sprintf("%s|%s|%s|%s|ttl%d|%s|%s|%s|l%d|m%d|%s|%s", c.RPC, c.Defect, c.Sender, c.Scheme, min(c.TTL, 3), c.Version, c.Token, c.Variant, c.Layers, min(c.Stage, 2), c.Split, c.Env)
 }
 
 var vf29Defects = map[string][]string{
@@ -447,6 +452,40 @@ func vf29Fire(r *verifkit.Run, c *vf29Case, defective bool, keepEvents bool) (o 
 		putObj.SetPayload(putPayload)
 		putObj.SetPayloadSize(uint64(len(putPayload)))
 		putObj.SetCreationEpoch(w.epoch)
+		if tomb {
+			c.Split = ""
+		}
+		if c.Split != "" {
+			// part of a big object: the init message carries a split header
+			sr := r.Rand("split", c.Idx)
+			u := vf29UUID(sr)
+			switch c.Split {
+			case "v1-first":
+				putObj.SetSplitID(object.NewSplitIDFromV2(u[:]))
+			case "v1-middle":
+				putObj.SetSplitID(object.NewSplitIDFromV2(u[:]))
+				putObj.SetPreviousID(verifkit.RandOID(sr))
+			case "v2-middle":
+				putObj.SetFirstID(verifkit.RandOID(sr))
+				putObj.SetPreviousID(verifkit.RandOID(sr))
+			case "v1-last":
+				par := object.New(w.cnrID, objOwner.usr)
+				par.SetPayloadSize(uint64(len(putPayload)) + 4096)
+				par.SetCreationEpoch(w.epoch)
+				par.SetAttributes(object.NewAttribute("vf29", "parent"))
+				if err := par.SetVerificationFields(objOwner.userSigner()); err != nil {
+					panic(err)
+				}
+				par.SetPayload(nil)
+				putObj.SetSplitID(object.NewSplitIDFromV2(u[:]))
+				putObj.SetPreviousID(verifkit.RandOID(sr))
+				putObj.SetParent(par)
+				putObj.SetParentID(par.GetID())
+			default:
+				panic("vf29: unknown split shape " + c.Split)
+			}
+			c.Variant += "/split:" + c.Split
+		}
 		if err := putObj.SetVerificationFields(objOwner.userSigner()); err != nil {
 			panic(err)
 		}
@@ -480,6 +519,9 @@ func vf29Fire(r *verifkit.Run, c *vf29Case, defective bool, keepEvents bool) (o 
 		}
 	}
 	w.finish(nil, nil, nil)
+	if defective && c.Env == "membership-lookup-fails" {
+		w.memberLookupFails = true
+	}
 
 	// meta header of the valid twin (+ token defects)
 	mkMeta := func() *protosession.RequestMetaHeader {
@@ -863,13 +905,19 @@ func vf29GenCase(r *verifkit.Run, idx int, rpcs []string) *vf29Case {
 			c.Layers = 1
 		}
 	}
+	if c.RPC == "Put" {
+		// own stream: the draws above stay what they were
+		pe := r.Rand("case-put-env", idx)
+		c.Split = []string{"", "", "v1-first", "v1-middle", "v2-middle", "v1-last"}[pe.IntN(6)]
+		c.Env = []string{"", "membership-lookup-fails"}[pe.IntN(2)]
+	}
 	return c
 }
 
 func TestVerif_C29(t *testing.T) {
 	r := verifkit.Start(t, "C29", "exploration")
 	defer r.Finish()
-	r.SetRule("RPC inventory by reflection; per case one request with exactly one defect of the catalogue (authenticity / token / access) x RPC x sender x signature scheme x TTL x version x token kind x body variant x signature layers x (Put) position of the defective stream message; distinct = that tuple; non-trivial = the defect-free twin reached the serving dependency on an identical world")
+	r.SetRule("RPC inventory by reflection; per case one request with exactly one defect of the catalogue (authenticity / token / access) x RPC x sender x signature scheme x TTL x version x token kind x body variant x signature layers x (Put) position of the defective stream message x (Put) split header shape of the init message x (Put) environment fault while the defective request is handled (container-membership lookup of the node fails); distinct = that tuple; non-trivial = the defect-free twin reached the serving dependency on an identical world")
 	r.Assume("real ACL stack (aclsvc.Service, acl.Checker, SDK eACL validator) over a shard-less real engine; get/delete services, put storage/transport and remote nodes are recorders")
 	rpcs := vf29Inventory(r)
 	if len(rpcs) == 0 {
@@ -945,6 +993,10 @@ func TestVerif_C29(t *testing.T) {
 			r.Count("rejected_"+c.RPC+"_"+c.Group, 1)
 			r.Seen("rejection_codes_"+c.Group, fmt.Sprint(bad.Codes))
 			r.Seen("defects_exercised", c.Defect)
+			if c.RPC == "Put" && c.Env != "" {
+				r.Count(fmt.Sprintf("rejected_Put_%s_under_%s_split_header_%v", c.Group, c.Env, c.Split != ""), 1)
+				r.Seen("put_split_shapes_under_env_fault", c.Split)
+			}
 			if len(bad.ACLReads) > 0 {
 				r.Count("rejections_after_acl_header_lookup", 1)
 			}
